@@ -193,6 +193,20 @@ func runC06(c *h.Ctx) {
 		pre := base
 		pre.preRegistered = true
 		doVerifyRequest(c, "honest:already-registered", pre)
+		// one long-lived attester; the accepted request's own buffers edited in place between calls, then restored
+		{
+			cache := newRecCache()
+			att := type3.NewRateLimitedAttester(cache)
+			doVerifyRequestOn(c, "in-place:accepted-first", base, att, cache)
+			for _, f := range [][]byte{base.sig, base.enc, base.key, base.nkid} {
+				for _, pos := range []int{len(f) - 1, len(f) / 2} {
+					f[pos] ^= 0x01
+					doVerifyRequestOn(c, "in-place:edited-after-accept", base, att, cache)
+					f[pos] ^= 0x01
+					doVerifyRequestOn(c, "in-place:restored", base, att, cache)
+				}
+			}
+		}
 		// every single-bit flip of each field
 		stride := 1
 		if !c.Thorough() && hi > 0 {
